@@ -33,11 +33,12 @@ Print Assumptions C01_rows_sound.
 (* The source as it is while the DatabaseError repair is not committed (flag = false; holds for any
    flag): transparent from a freshly started process PROVIDED every fault that breaks the models table or
    the file and hits an already initialised process is followed by a Reload before the next caching
-   parse.  Partial: the hypothesis [disciplined] carves out exactly the recorded input class
-   (known finding db-fault-after-init-same-process). *)
+   parse, and no unrepairable fault occurs (path replaced by a directory, a VIEW named models: [benign],
+   [persistent]).  Partial: the hypotheses carve out exactly the input class of the finding
+   db-fault-after-init-same-process (fixed by a7369f2; the full theorem above covers these faults too). *)
 Theorem C01_transparent_reload_partial (sy : nat -> bool) (caught : exn -> bool) (flag : bool)
         (s : state) (h : list op) :
-  (forall e, caught e = true) -> legal h = true -> Inv sy s -> s_init s = false ->
+  (forall e, caught e = true) -> legal h = true -> Inv sy s -> s_init s = false -> benign (s_db s) ->
   disciplined false false (is_clean (s_ver s)) h = true -> transparent sy caught flag s h.
 Proof. intros Hc. exact (transparent_reload sy caught flag Hc s h). Qed.
 Print Assumptions C01_transparent_reload_partial.
@@ -62,9 +63,21 @@ Example C01_example :
   let h := [Parse 0 (30 * DAY) false; Parse 1 (30 * DAY) true; CorruptEntry 0 (Raises EOFError); Parse 0 (30 * DAY) false;
             CorruptFile; Reload; Parse 0 DAY false; SetVersion (Clean 1); Parse 0 (30 * DAY) false;
             CorruptLayout LModelsWrong; Advance (31 * DAY); Reload; Parse 1 (10 ^ 30) false; Parse 0 (-5) true] in
-  legal h = true /\ Inv (fun t => Nat.eqb t 0) init_state /\ s_init init_state = false /\
+  legal h = true /\ Inv (fun t => Nat.eqb t 0) init_state /\ s_init init_state = false /\ benign (s_db init_state) /\
   disciplined false false (is_clean (s_ver init_state)) h = true /\
   run (fun t => Nat.eqb t 0) (fun _ => true) false init_state h =
     [OTree 0; ONoTree; ONone; OTree 0; ONone; ONone; OTree 0; ONone; OTree 0; ONone; ONone; ONone; ONoTree; OTree 0].
 Proof. vm_compute. repeat split; exact I. Qed.
 Print Assumptions C01_example.
+
+(* the unrepairable faults (directory in place of the file, a view named models) in a concrete history, for a source
+   with the DatabaseError fall-back: outputs as specified although nothing can be cached while the fault lasts *)
+Example C01_example_unrepairable :
+  let h := [Parse 0 (30 * DAY) false; CorruptLayout LModelsView; Parse 0 (30 * DAY) false; Parse 1 (30 * DAY) true;
+            Reload; Parse 0 (30 * DAY) false; MakeDir; Parse 0 0 false; Reload; Parse 1 0 false; DeleteFile;
+            Parse 0 (30 * DAY) false; Parse 0 (30 * DAY) false] in
+  legal h = true /\
+  run (fun t => Nat.eqb t 0) (fun _ => true) true init_state h =
+    [OTree 0; ONone; OTree 0; ONoTree; ONone; OTree 0; ONone; OTree 0; ONone; ONoTree; ONone; OTree 0; OTree 0].
+Proof. vm_compute. split; reflexivity. Qed.
+Print Assumptions C01_example_unrepairable.
